@@ -571,6 +571,10 @@ def read_stream_unit(mode):
                 eng.oblige(f"no-exception:{getattr(val, 'cls', kind)}", s, False, kind="raise")
                 continue
             pos = s.ghost["pos"]
+            # the reader runs after the request was written: what is queued when it starts (a fast terminal's reply) or arrives while it
+            # runs IS the reply - changing the terminal mode must not throw queued input away (tcsetattr(TCSAFLUSH) / tcflush do)
+            eng.oblige("queued-input-is-never-discarded-by-the-reader(mode-changes-with-TCSANOW/TCSADRAIN)", s, s.ghost.get("input_discards", 0) == 0,
+                       kind="post", replay="C12.queued_reply")
             eng.oblige("returns-exactly-the-bytes-it-consumed,in-order", s, And(isinstance(val, Rec) and val.name == "bytes", val.f["len"] == pos - base) if isinstance(val, Rec) else False, kind="post")
             if mode == "drain":
                 eng.oblige("drain:everything-that-had-arrived-is-consumed,without-waiting", s, pos == s.ghost["avail"], kind="post")
